@@ -27,7 +27,7 @@ def _select(tier):
             return name.endswith(("_q", "_i"))
         if name.startswith("hash_"):
             return name.endswith(("_q", "_d"))
-        return name.endswith(quick_classes) or name.startswith(("yearseg_", "shifts_"))
+        return name.endswith(quick_classes) or name.startswith(("yearseg_", "shifts_", "tiling_"))
     return sel
 
 
